@@ -9,7 +9,7 @@ with the model run under the same order (conformance)."""
 import json, os, random
 import vlib
 
-FAMILIES = ["types", "consts", "svcs", "mixed", "modules"]
+FAMILIES = ["types", "consts", "svcs", "mixed", "modules", "modsvcs"]
 
 
 def canary(row, rng):
@@ -18,7 +18,7 @@ def canary(row, rng):
     # the program must not be in the known hazard class for the canary to be decisive:
     # flip the outcome of a services-only or roots of a types-only program
     pid = row.get("id", "")
-    if not (pid.startswith("svcs-") or pid.startswith("modules-")):
+    if not (pid.startswith("svcs-") or pid.startswith("modules-") or pid.startswith("modsvcs-")):
         return None
     row["ok"] = not row["ok"]
     if row["ok"]:
